@@ -1646,7 +1646,7 @@ def preprocess_arg(arg: ColExpr, table: Table, *, agg_is_window: bool = True) ->
         if (
             isinstance(new, ColFn)
             and len(new.args) > 0
-            and types.without_const(new.args[0].dtype()) == Bool()
+            and all(types.without_const(arg.dtype()) == Bool() for arg in new.args)
             and new.op in (ops.add, ops.sum)
         ):
             new.args = [arg.cast(Int64) for arg in new.args]
